@@ -371,7 +371,7 @@ def job_docs(kind, arg):
     elif kind == 'pairs':
         shard, nshards, quick = arg
         for key, f in G.pair_documents(shard, nshards):
-            if quick and (key[3] not in (1, 3) or key[2] not in ('none', 'args-with-placeholders')):
+            if quick and (key[3] != 3 or key[2] not in ('none', 'args-with-placeholders')):
                 continue
             text, exp, r = M.render(f)
             if not M.roles_ok(r):
